@@ -1,4 +1,5 @@
 import os
+import re
 import sys
 
 from contextlib import contextmanager
@@ -14,6 +15,7 @@ except:
     SUFFIXES = [s for s, _, _ in imp.get_suffixes()]
 
 SOURCE_SUFFIXES = ('.py',)
+IDENTIFIER = re.compile(r'[^\W\d]\w*$')
 
 if False:
     import typing as t
@@ -67,7 +69,7 @@ class Project(object):
                 for s in SUFFIXES:
                     if name.endswith(s):
                         mname = name[:-len(s)]
-                        if mname == '__init__' or '.' in mname:
+                        if mname == '__init__':
                             continue
                         modules.add(mname)
                         break
@@ -75,7 +77,8 @@ class Project(object):
                     if os.path.exists(os.path.join(pdir, name, '__init__.py')):
                         modules.add(name)
 
-        return modules
+        # a name that is not an identifier (weird.name.py, x-y.py) cannot be imported
+        return set(m for m in modules if IDENTIFIER.match(m))
 
     @contextmanager
     def check_changes(self):
